@@ -5,12 +5,29 @@ with re-queries of earlier operands after new sets were built from them (operand
 Case:  {"nodes": [[kind, ...], ...], "qs": [[query, node, arg?], ...], "how": [spelling per node]}
 Outcome: {"out": [...]}  (one entry per query; sets are sorted lists)
 
+Spelling of a node (`how`; the Lean model and the oracle never see it - the denoted set does not depend on it):
+  leaf      : "set" | "list" | "int" | "gen" | "tuple" | "frozenset" | "dup" (list with a repeated element, reversed) |
+              "nested" (BitLengthSet(BitLengthSet(set)))
+  cat / uni : "op" | "rop" | "static" (operands as BitLengthSet objects), or
+              {"api": A, "forms": [operand form per child], "outer": O}  - every public composition API with every
+              admissible operand FORM in every operand position:
+              A: "static" (concatenate / unite of an iterable O = list | tuple | gen | iter), "op" (x + y, x | y),
+                 "rop" (raw + x, raw | x: the reflected operators), "iop" (t += y, t |= y on a second name of the operand),
+                 "fold" (functools.reduce(operator.add / or_, rest, first)), "sum" (sum(rest, first); sum(rest) when the
+                 first operand is the plain integer 0)
+              form: "bls" (the BitLengthSet object of the child), "copy" (BitLengthSet(child)), "expanded" (the plain set
+                 of the child's numerical expansion), and for leaf children the plain Python values "int" (single-valued
+                 leaves: the scalar itself, incl. the neutral / absorbing / boundary scalars 0 and 1), "set",
+                 "frozenset", "list", "tuple", "gen", "dup"
+
 Oracle (independent of the Lean model and of the library's algorithm): residues by iterated sumsets in Z/d with
 square-and-multiply for the repetition count, min/max by direct recursion, exact expansion for small trees.
 """
 from __future__ import annotations
 
+import functools
 import math
+import operator
 import random
 import typing
 
@@ -446,8 +463,177 @@ def gen_lookalike_twins(rng: random.Random) -> dict:
     return {"nodes": nodes, "how": how, "qs": qs}
 
 
+# --- operand forms: every public composition API x every admissible operand form x every operand position -------------
+# The composition APIs accept "BitLengthSet | Iterable[int] | int" for every operand.  What a composition DENOTES depends
+# on the operands' sets only - never on how an operand is spelled (object, copy, plain set / list / tuple / generator,
+# scalar), on where it stands, or on which entry point (static method, operator, reflected operator, reduce / sum) is
+# used.  Scalars that are neutral / absorbing for SOME operator (0 for concatenation and repetition, 1 for alignment and
+# counts) are ordinary elements for the others.
+
+BLS_FORMS = ("bls", "copy")
+RAW_LEAF_FORMS = ("set", "frozenset", "list", "tuple", "gen", "dup")
+LEAF_HOW_1 = ["int", "int", "set", "list", "gen", "tuple", "frozenset", "nested"]
+LEAF_HOW_N = ["set", "set", "list", "gen", "tuple", "frozenset", "dup", "nested"]
+FORM_SCALARS = [0, 0, 0, 0, 1, 1, 2, 3, 7, 8, 8, 16, 255]
+
+
+def child_forms(nodes, j, den_memo=None) -> typing.List[str]:
+    """The forms in which child j may be handed to a composition API."""
+    fs = ["bls", "bls", "copy"]
+    n = nodes[j]
+    if n[0] == "leaf":
+        fs += list(RAW_LEAF_FORMS)
+        if len(n[1]) == 1:
+            fs += ["int"] * 6
+    else:
+        dm = {} if den_memo is None else den_memo
+        if expand_cost(nodes, j, dm) <= 300 and o_den(nodes, j, 200, dm) is not None:
+            fs += ["expanded", "expanded"]
+    return fs
+
+
+def how_ok(kind: str, ch: typing.List[int], h: dict) -> bool:
+    """Python-level admissibility: the expression must reach a BitLengthSet method (two plain operands would be
+    combined by Python itself), binary APIs have two operands."""
+    api, forms = h["api"], h["forms"]
+    if len(forms) != len(ch) or not ch:
+        return False
+    if api == "static":
+        return True
+    if api in ("op", "iop"):
+        return len(ch) == 2 and forms[0] in BLS_FORMS
+    if api == "rop":
+        return len(ch) == 2 and forms[0] not in BLS_FORMS and forms[1] in BLS_FORMS
+    if api in ("fold", "sum"):
+        return len(ch) >= 2 and (forms[0] in BLS_FORMS or forms[1] in BLS_FORMS) and (api == "fold" or kind == "cat")
+    return False
+
+
+def gen_how(rng: random.Random, nodes, kind: str, ch: typing.List[int], den_memo=None) -> dict:
+    """A random admissible spelling of the composition `kind` over the children `ch`."""
+    apis = ["static", "static"]
+    if len(ch) == 2:
+        apis += ["op", "op", "rop", "rop", "iop"]
+    if len(ch) >= 2:
+        apis += ["fold", "fold"] + (["sum"] if kind == "cat" else [])
+    avail = [child_forms(nodes, j, den_memo) for j in ch]
+    for _ in range(30):
+        api = rng.choice(apis)
+        forms = [rng.choice(a) for a in avail]
+        if api == "rop":  # the left operand is a plain value whenever the child has one
+            raw = [f for f in avail[0] if f not in BLS_FORMS]
+            if not raw:
+                continue
+            forms[0] = rng.choice(raw)
+            forms[1] = rng.choice(BLS_FORMS)
+        elif api in ("op", "iop"):
+            forms[0] = rng.choice(BLS_FORMS)
+        h = {"api": api, "forms": forms, "outer": rng.choice(["list", "list", "tuple", "gen", "iter"])}
+        if how_ok(kind, ch, h):
+            return h
+    return {"api": "static", "forms": ["bls"] * len(ch), "outer": "list"}
+
+
+def _form_queries(rng, nodes, targets, divisors, qs):
+    memo: dict = {}
+    for i in targets:
+        dm: dict = {}
+        for d in divisors:
+            if _cost(nodes, i, d, memo) <= MOD_BUDGET:
+                qs.append([rng.choice(["mod", "mod", "aligned"]), i, d])
+        if expand_cost(nodes, i, dm) <= EXPAND_BUDGET and o_den(nodes, i, 400, dm) is not None:
+            qs.append(["expand", i])
+            if rng.random() < 0.4:
+                qs.append(["len", i])
+        qs.append(["min", i])
+        qs.append([rng.choice(["max", "fixed", "fixed"]), i])
+
+
+def gen_forms(rng: random.Random) -> dict:
+    """Small trees whose compositions are spelled through every public API with every operand form: 2-4 operands (scalars
+    incl. 0 and 1, small sets with and without 0, operator-backed sets), 1-3 compositions over them - a boundary scalar
+    is put into a random operand position of most of them -, each optionally wrapped into repeat / repeat_range / pad /
+    a further concatenation; every composition and wrapper is queried analytically and numerically, the operands are
+    queried again at the end (they must not have been changed)."""
+    nodes: typing.List[list] = []
+    how: typing.List[typing.Any] = []
+
+    def add(n, h):
+        nodes.append(n)
+        how.append(h)
+        return len(nodes) - 1
+
+    def small_set():
+        base = rng.choice([1, 1, 2, 3, 8, 8])
+        vals = {base * rng.randint(0 if rng.random() < 0.3 else 1, 9) for _ in range(rng.randint(2, 3))}
+        if rng.random() < 0.15:
+            vals.add(0)
+        return sorted(vals)
+
+    operands: typing.List[int] = []
+    for _ in range(rng.randint(2, 4)):
+        x = rng.random()
+        if x < 0.35 or not operands and x > 0.8:
+            operands.append(add(["leaf", [rng.choice(FORM_SCALARS)]], rng.choice(LEAF_HOW_1)))
+        elif x < 0.8:
+            vals = small_set()
+            operands.append(add(["leaf", vals], rng.choice(LEAF_HOW_N if len(vals) > 1 else LEAF_HOW_1)))
+        else:
+            c = rng.choice(operands)
+            kind = rng.choice(["rep", "rrep", "pad"])
+            operands.append(add([kind, c, rng.choice([1, 2, 3, 4, 8]) if kind == "pad" else rng.choice([0, 1, 1, 2, 3])], kind))
+    comps: typing.List[int] = []
+    den_memo: dict = {}
+    for _ in range(rng.randint(1, 3)):
+        kind = rng.choice(["uni", "uni", "uni", "cat", "cat"])
+        pool = operands + comps
+        ch = [rng.choice(pool) for _ in range(rng.choice([1, 2, 2, 2, 3, 3, 4]))]
+        if rng.random() < 0.65:  # a boundary scalar of its own, in any operand position
+            z = add(["leaf", [rng.choice([0, 0, 0, 1])]], "int")
+            ch.insert(rng.randrange(len(ch) + 1), z)
+        top = add([kind, ch], gen_how(rng, nodes, kind, ch, den_memo))
+        comps.append(top)
+        x = rng.random()
+        if x < 0.5:
+            w = rng.choice(["rep", "rrep", "rrep", "pad", "pad", "cat"])
+            if w == "pad":
+                comps.append(add(["pad", top, rng.choice([2, 3, 4, 8, 8, 16])], "pad"))
+            elif w == "cat":
+                c = add(["leaf", [rng.choice([1, 3, 8, 16])]], "int")
+                chh = [c, top] if rng.random() < 0.5 else [top, c]
+                comps.append(add(["cat", chh], gen_how(rng, nodes, "cat", chh, den_memo)))
+            else:
+                comps.append(add([w, top, rng.choice([0, 1, 2, 2, 3, 5, 2**32 + 1])], w))
+    qs: typing.List[list] = []
+    divisors = dedup([8, rng.choice([1, 2, 3, 4, 5, 7, 16, 32]), rng.randint(1, 40)])
+    _form_queries(rng, nodes, comps, divisors, qs)
+    if rng.random() < 0.5:
+        rng.shuffle(qs)
+    # the operands afterwards: building new sets from them has not changed them
+    for i in operands:
+        if rng.random() < 0.6:
+            qs.append([rng.choice(["expand", "min", "max", "len"]) if nodes[i][0] == "leaf" else rng.choice(["min", "max", "fixed"]), i])
+    return {"nodes": nodes, "how": how, "qs": qs}
+
+
+def dedup(l):
+    out = []
+    for x in l:
+        if x not in out:
+            out.append(x)
+    return out
+
+
+FORMS_SHARE = 0.14
+
+
 def gen_case(rng: random.Random, prop: str) -> dict:
     x = rng.random()
+    if x > 1.0 - FORMS_SHARE:
+        c = gen_forms(rng)
+        if c["qs"]:
+            return c
+        x = 0.9
     if x < 0.3:
         c = gen_targeted(rng)
         if c["qs"]:
@@ -485,7 +671,9 @@ def gen_case(rng: random.Random, prop: str) -> dict:
             m = rng.choice([1, 2, 2, 2, 3, 4])
             ch = [pick() for _ in range(m)]
             nodes.append([kind, ch])
-            if m == 2:
+            if rng.random() < 0.3:  # any API, any operand form (see gen_how)
+                how.append(gen_how(rng, nodes[:-1], kind, ch))
+            elif m == 2:
                 how.append(rng.choice(["op", "rop", "static"]))
             else:
                 how.append("static")
@@ -524,6 +712,59 @@ def gen_case(rng: random.Random, prop: str) -> dict:
 # ------------------------------------------------------------------------------- implementation side
 
 
+def raw_form(vs, form):
+    """The values of a leaf as a plain Python object (no BitLengthSet involved)."""
+    if form == "int":
+        return vs[0]
+    if form == "set":
+        return set(vs)
+    if form == "frozenset":
+        return frozenset(vs)
+    if form == "list":
+        return list(vs)
+    if form == "tuple":
+        return tuple(vs)
+    if form == "gen":
+        return (x for x in vs)
+    if form == "dup":
+        return list(reversed(vs)) + [vs[0]]
+    raise ValueError(form)
+
+
+def operand_form(B, nodes, objs, j, form):
+    if form == "bls":
+        return objs[j]
+    if form == "copy":
+        return B(objs[j])
+    if form == "expanded":
+        return set(objs[j])
+    return raw_form(nodes[j][1], form)
+
+
+def compose_impl(B, kind, items, h):
+    api = h["api"]
+    f2 = operator.add if kind == "cat" else operator.or_
+    if api == "static":
+        outer = {"list": list, "tuple": tuple, "gen": lambda it: (x for x in it), "iter": lambda it: iter(list(it))}[h.get("outer", "list")]
+        return (B.concatenate if kind == "cat" else B.unite)(outer(items))
+    if api in ("op", "rop"):
+        return f2(items[0], items[1])
+    if api == "iop":
+        t = items[0]
+        if kind == "cat":
+            t += items[1]
+        else:
+            t |= items[1]
+        return t
+    if api == "fold":
+        return functools.reduce(f2, items[1:], items[0])
+    if api == "sum":
+        if isinstance(items[0], int) and items[0] == 0:
+            return sum(items[1:])
+        return sum(items[1:], items[0])
+    raise ValueError(api)
+
+
 def build_impl(pydsdl, nodes, how):
     B = pydsdl.BitLengthSet
     objs: list = []
@@ -533,10 +774,10 @@ def build_impl(pydsdl, nodes, how):
             vs = n[1]
             if h == "int":
                 o = B(vs[0])
-            elif h == "list":
-                o = B(list(vs))
-            elif h == "gen":
-                o = B(x for x in vs)
+            elif h == "nested":
+                o = B(B(set(vs)))
+            elif h in RAW_LEAF_FORMS:
+                o = B(raw_form(vs, h))
             else:
                 o = B(set(vs))
         elif k == "pad":
@@ -547,7 +788,11 @@ def build_impl(pydsdl, nodes, how):
             o = objs[n[1]].repeat_range(n[2])
         elif k in ("cat", "uni"):
             ch = [objs[j] for j in n[1]]
-            if h == "op" and len(ch) == 2:
+            if isinstance(h, dict):
+                o = compose_impl(B, k, [operand_form(B, nodes, objs, j, f) for j, f in zip(n[1], h["forms"])], h)
+                if not isinstance(o, B):
+                    raise TypeError("composition %s did not yield a BitLengthSet but %s" % (h, type(o).__name__))
+            elif h == "op" and len(ch) == 2:
                 o = (ch[0] + ch[1]) if k == "cat" else (ch[0] | ch[1])
             elif h == "rop" and len(ch) == 2 and nodes[n[1][0]][0] == "leaf":
                 raw = set(nodes[n[1][0]][1])
@@ -750,6 +995,20 @@ class BlsSuite(common.Suite):
             c["nodes"] = case["nodes"][: last + 1]
             c["how"] = case["how"][: last + 1]
             yield c
+        # simplify spellings: an operand form becomes the plain object, an API the static method
+        for i, h in enumerate(case["how"]):
+            if isinstance(h, dict):
+                for c_i, f in enumerate(h["forms"]):
+                    if f != "bls":
+                        h2 = dict(h, forms=h["forms"][:c_i] + ["bls"] + h["forms"][c_i + 1:])
+                        if how_ok(case["nodes"][i][0], case["nodes"][i][1], h2):
+                            c = dict(case)
+                            c["how"] = case["how"][:i] + [h2] + case["how"][i + 1:]
+                            yield c
+                if h["api"] != "static":
+                    c = dict(case)
+                    c["how"] = case["how"][:i] + [dict(h, api="static", outer="list")] + case["how"][i + 1:]
+                    yield c
         # simplify numbers
         for i, n in enumerate(case["nodes"]):
             if n[0] in ("rep", "rrep") and n[2] > 0:
@@ -765,6 +1024,21 @@ class BlsSuite(common.Suite):
                 yield c
 
     def features(self, case, impl):
+        spelled = False
+        for n, h in zip(case["nodes"], case["how"]):
+            if isinstance(h, dict):
+                spelled = True
+                yield "api:%s:%s" % (n[0], h["api"] + ("(" + h.get("outer", "list") + ")" if h["api"] == "static" else ""))
+                for pos, (j, f) in enumerate(zip(n[1], h["forms"])):
+                    yield "operand-form:" + f
+                    if f == "int":
+                        v = case["nodes"][j][1][0]
+                        where = "only" if len(n[1]) == 1 else "first" if pos == 0 else "last" if pos == len(n[1]) - 1 else "middle"
+                        yield "scalar-operand:%s:%s:%s" % (n[0], v if v in (0, 1) else "other", where)
+            elif n[0] == "leaf":
+                yield "leaf-form:" + str(h)
+        if spelled:
+            yield "class:operand-forms"
         for n in case["nodes"]:
             yield "node:" + n[0]
             if n[0] in ("rep", "rrep"):
